@@ -3,7 +3,9 @@ use std::collections::HashMap;
 use rusty_common::CaseInsensitiveString;
 use rusty_linter::core::{QBNumberCast, ScopeName};
 use rusty_parser::{BareName, BuiltInFunction, TypeQualifier};
-use rusty_variant::{UserDefinedTypeValue, VArray, Variant, bytes_to_i32, i32_to_bytes};
+use rusty_variant::{
+    UserDefinedTypeValue, VArray, Variant, bytes_to_f64, bytes_to_i32, f64_to_bytes, i32_to_bytes,
+};
 
 use crate::RuntimeError;
 use crate::instruction_generator::{Path, RootPath};
@@ -563,7 +565,30 @@ impl PeekByte for Variant {
                 let bytes = i32_to_bytes(*i);
                 Ok(bytes[address])
             }
-            _ => todo!(),
+            // 32 bit two's complement, least significant byte first
+            Self::VLong(l) => Ok((*l as i32).to_le_bytes()[address]),
+            // IEEE-754 binary32 and binary64, least significant byte first
+            Self::VSingle(f) => Ok(f.to_le_bytes()[address]),
+            Self::VDouble(d) => Ok(f64_to_bytes(*d)[address]),
+            // one byte per character
+            Self::VString(s) => s
+                .chars()
+                .nth(address)
+                .map(|ch| ch as u8)
+                .ok_or(RuntimeError::SubscriptOutOfRange),
+            Self::VArray(v_array) => v_array.peek_byte(address),
+            // the members of a record follow each other
+            Self::VUserDefined(user_defined_type_value) => {
+                let mut offset: usize = 0;
+                for member in user_defined_type_value.values() {
+                    let len = member.byte_size();
+                    if address < offset + len {
+                        return member.peek_byte(address - offset);
+                    }
+                    offset += len;
+                }
+                Err(RuntimeError::SubscriptOutOfRange)
+            }
         }
     }
 }
@@ -571,7 +596,10 @@ impl PeekByte for Variant {
 impl PeekByte for VArray {
     fn peek_byte(&self, address: usize) -> Result<u8, RuntimeError> {
         let element_size = self.byte_size() / self.len();
-        debug_assert!(element_size > 0);
+        if element_size == 0 {
+            // an array of empty strings has no bytes
+            return Err(RuntimeError::SubscriptOutOfRange);
+        }
         let element_index = address / element_size;
         let offset = address % element_size;
         let element = self
@@ -594,7 +622,63 @@ impl PokeByte for Variant {
                 *i = bytes_to_i32(bytes);
                 Ok(())
             }
-            _ => todo!(),
+            Self::VLong(l) => {
+                let mut bytes = (*l as i32).to_le_bytes();
+                bytes[address] = value;
+                *l = i32::from_le_bytes(bytes) as i64;
+                Ok(())
+            }
+            Self::VSingle(f) => {
+                let mut bytes = f.to_le_bytes();
+                bytes[address] = value;
+                let poked = f32::from_le_bytes(bytes);
+                // a SINGLE variable only holds finite numbers
+                if poked.is_finite() {
+                    *f = poked;
+                    Ok(())
+                } else {
+                    Err(RuntimeError::Overflow)
+                }
+            }
+            Self::VDouble(d) => {
+                let mut bytes = f64_to_bytes(*d);
+                bytes[address] = value;
+                // exponent bits all set: an infinity or a NaN, which a DOUBLE variable does not hold
+                if bytes[7] & 0x7F == 0x7F && bytes[6] & 0xF0 == 0xF0 {
+                    Err(RuntimeError::Overflow)
+                } else {
+                    *d = bytes_to_f64(&bytes);
+                    Ok(())
+                }
+            }
+            Self::VString(s) => {
+                if address < s.chars().count() {
+                    *s = s
+                        .chars()
+                        .enumerate()
+                        .map(|(i, ch)| if i == address { value as char } else { ch })
+                        .collect();
+                    Ok(())
+                } else {
+                    Err(RuntimeError::SubscriptOutOfRange)
+                }
+            }
+            Self::VArray(v_array) => v_array.poke_byte(address, value),
+            Self::VUserDefined(user_defined_type_value) => {
+                let mut offset: usize = 0;
+                let names: Vec<_> = user_defined_type_value.names().cloned().collect();
+                for name in names {
+                    let member = user_defined_type_value
+                        .get_mut(&name)
+                        .ok_or(RuntimeError::SubscriptOutOfRange)?;
+                    let len = member.byte_size();
+                    if address < offset + len {
+                        return member.poke_byte(address - offset, value);
+                    }
+                    offset += len;
+                }
+                Err(RuntimeError::SubscriptOutOfRange)
+            }
         }
     }
 }
@@ -602,7 +686,10 @@ impl PokeByte for Variant {
 impl PokeByte for VArray {
     fn poke_byte(&mut self, address: usize, value: u8) -> Result<(), RuntimeError> {
         let element_size = self.byte_size() / self.len();
-        debug_assert!(element_size > 0);
+        if element_size == 0 {
+            // an array of empty strings has no bytes
+            return Err(RuntimeError::SubscriptOutOfRange);
+        }
         let element_index = address / element_size;
         let offset = address % element_size;
         let element = self
